@@ -274,7 +274,9 @@ func (la *LeapArray) ValuesConditional(now uint64, predicate base.TimePredicate)
 // isBucketDeprecated checks whether the BucketWrap is expired, according to given timestamp.
 func (la *LeapArray) isBucketDeprecated(now uint64, ww *BucketWrap) bool {
 	ws := atomic.LoadUint64(&ww.BucketStart)
-	return (now - ws) > uint64(la.intervalInMs)
+	// A bucket that starts exactly one interval ago is already outside the
+	// sliding window ending at the bucket of now.
+	return (now - ws) >= uint64(la.intervalInMs)
 }
 
 // BucketGenerator represents the "generic" interface for generating and refreshing buckets.
